@@ -70,6 +70,8 @@ _versions = st.one_of(
     st.sampled_from(["2026092715300000000012345-g1a2b3c", "1" * 26 + "-x", "v" + "9" * 24 + "_", "20260927153000000000123456789!", "1." * 30 + "x"]),
     st.sampled_from(["99.0", "v99.1.2", "1.0", "0.1", "0.0.1", "v0.0.9", "2.0rc1", "3.0.dev2", "1.0.post1", "1!0.1", "99.0a1", "v1.2.3-beta", "", "latest", "1.0.0.0.0", "١٢", "1.0+local", "99.0.0-rc.1", " 9.9 "]),
     st.builds(lambda a, b, c: "%d.%d.%d" % (a, b, c), st.integers(0, 50), st.integers(0, 20), st.integers(0, 20)),
+    # any number of release components (one: "99", five: "99.0.1.2.3"), with and without the v prefix
+    st.builds(lambda v, parts: v + ".".join(str(x) for x in parts), st.sampled_from(["", "v"]), st.lists(st.sampled_from([0, 1, 2, 9, 99, 2026]), min_size=1, max_size=5)),
     st.text(max_size=8),
 )
 _outcomes = st.one_of(
@@ -96,7 +98,7 @@ def enumerated(tier):
         for cmd in ("info", "verify"):
             yield {"release": rel, "outcome": {"kind": "tag", "tag": "99.0"}, "command": cmd, "state": "clean", "subprocess": True}
     # version classes that must (or must not) trigger the notice, answered in time
-    for tag in ("99.0", "v99.1", "99.0.post1", "99.0a1", "99.0rc1", "99.0b2", "99.0.dev1", "0.0.1", "99.0.0-rc.1", "1!0.0.1", "2026092715300000000012345-g1a2b3c"):
+    for tag in ("99", "v99", "0", "99.1.2.3", "v99.0.0.0.1", "99.0", "v99.1", "99.0.post1", "99.0a1", "99.0rc1", "99.0b2", "99.0.dev1", "0.0.1", "99.0.0-rc.1", "1!0.0.1", "2026092715300000000012345-g1a2b3c"):
         for rel in ("start", "at_join"):
             yield {"release": rel, "outcome": {"kind": "tag", "tag": tag}, "command": "info", "state": "clean"}
     for seq in (["Timeout", "hang"], ["Timeout", "Timeout", "hang"], ["Timeout", "late_newer"], ["ConnectionError", "ConnectionError", "ConnectionError", "newer"], ["http503", "hang"]):
